@@ -21,6 +21,9 @@
 //	tree      core/search.Tree driven directly (no path.Clean in front of it): clean patterns and
 //	          their slash-only spellings, every ordered table k <= 2, relative patterns; Search of
 //	          every clean path (see tree.go).
+//	srv-*     the registration layer in front of the router (rest/server.go, rest/engine.go): programs
+//	          of AddRoutes/AddRoute calls with RouteOptions on a real rest.Server, started through
+//	          StartWithOpts and aborted before listening (see server.go, srvgen.go).
 //	tables4   (thorough) every ordered 4-route table in canonical labelling, under the soft time
 //	          box; requests x P1.
 //
@@ -34,6 +37,7 @@ import (
 	"flag"
 	"fmt"
 	"os"
+	"runtime/pprof"
 	"sort"
 	"strings"
 	"sync"
@@ -505,7 +509,15 @@ func sampleRun() []any {
 
 func main() {
 	only := flag.String("phases", "", "developer aid: run only the phases whose name starts with one of these comma-separated prefixes (the run is then marked non-exhaustive)")
+	verbose := flag.Bool("v", false, "developer aid: print the wall time of every phase to stderr")
+	prof := flag.String("cpuprofile", "", "developer aid: write a CPU profile of the run to this file")
 	cfg := vlib.ParseFlags("C09", "exploration")
+	if *prof != "" {
+		if f, err := os.Create(*prof); err == nil {
+			_ = pprof.StartCPUProfile(f)
+			stopProfile = func() { pprof.StopCPUProfile(); f.Close() }
+		}
+	}
 	want := func(name string) bool {
 		if *only == "" {
 			return true
@@ -517,6 +529,7 @@ func main() {
 		}
 		return false
 	}
+	silenceLogs()
 	buildUniverse()
 	buildPairs()
 	buildTreeFamily()
@@ -527,6 +540,9 @@ func main() {
 		class, err := vlib.LoadReplay(cfg.Replay, &rc)
 		if err != nil {
 			vlib.Fatal("cannot load replay: %v", err)
+		}
+		if rc.Server != nil {
+			replayServer(cfg, class, &rc)
 		}
 		regs, mi, pid := specsOf(rc)
 		w := newWorker()
@@ -587,6 +603,10 @@ func main() {
 	}
 	qMain, qSmall := share{kFull: 2}, share{kFull: 1}
 	phases := []phase{
+		// the server-level families come first: they are cheap, and the soft box must never cut them
+		{"srv-alias", unitsSrvAlias(shareQuick)},
+		{"srv-opts", unitsSrvOpts(shareQuick)},
+		{"srv-conf", unitsSrvConf(shareQuick)},
 		{"main", unitsMain(qMain)},
 		{"ext", unitsExt(qSmall, false)},
 		{"unclean", unitsUnclean(qSmall)},
@@ -603,17 +623,30 @@ func main() {
 			phase{"ext (other method/literal labellings of 2-route tables)", unitsExt(qSmall, false)},
 			phase{"hooks (other labellings of 2-route tables, every installation position)", unitsHooks(qSmall)},
 			phase{"hooks-k3 (3-route tables, canonical labelling, handlers installed first)", unitsHooks3()},
+			phase{"srv-alias (3 calls over every form, extended pool, two slice values)", unitsSrvAlias(shareRest)},
+			phase{"srv-opts (lists of 2 options and 2-call programs on every slice, lists of 3 options)", unitsSrvOpts(shareRest)},
+			phase{"srv-conf (every slice, 9 programs)", unitsSrvConf(shareRest)},
 		)
+	}
+	if want("srv-print") {
+		runSrvPrint(p.workers[0]) // swaps os.Stdout: before any worker goroutine runs
 	}
 	complete := true
 	if *only != "" {
 		r.NotExhaustive("phase filter -phases=" + *only)
 	}
+	phaseWall := map[string]float64{}
 	for _, ph := range phases {
 		if !want(ph.name) {
 			continue
 		}
-		if time.Now().After(deadline) || !p.run(ph.units, true) {
+		t0 := time.Now()
+		ok := !time.Now().After(deadline) && p.run(ph.units, true)
+		phaseWall[ph.name] = float64(time.Since(t0).Milliseconds()) / 1000
+		if *verbose {
+			fmt.Fprintf(os.Stderr, "phase %s: %.1fs\n", ph.name, phaseWall[ph.name])
+		}
+		if !ok {
 			r.NotExhaustive("soft time box reached during phase \"" + ph.name + "\"; the phases before it are complete")
 			complete = false
 			break
@@ -639,8 +672,12 @@ func main() {
 	// merge
 	var tot counters
 	viol := map[string]*cand{}
+	var stot srvCounters
 	for _, w := range p.workers {
 		tot.add(&w.c)
+		if w.srv != nil {
+			stot.add(&w.srv.c)
+		}
 		for k, v := range w.viol {
 			if old := viol[k]; old == nil || v.less(old) {
 				viol[k] = v
@@ -664,6 +701,9 @@ func main() {
 		"direct_tree_tables": tot.TreeTables, "direct_tree_searches": tot.TreeSearches,
 		"direct_tree_empty_segment_route_rejected": tot.TreeDupSlashRejected, "direct_tree_empty_segment_route_accepted_as_clean": tot.TreeEmptySegAccepted,
 	}
+	for k, v := range stot.counts() {
+		cnt[k] = v
+	}
 	for k, v := range cnt {
 		r.Count(k, int(v))
 	}
@@ -686,17 +726,23 @@ func main() {
 		"every request method x path of its request set is served through ServeHTTP; each (table, configuration, request) triple is generated exactly once. " +
 		"Configuration = default router, or (family hooks) a custom NotFound and/or NotAllowed handler installed before/after the registrations; family tree drives " +
 		"core/search.Tree directly (Add of clean and slash-only spellings, Search of clean paths). " +
+		"Families srv-* drive the registration layer in front of the router: a program = 1-2 []rest.Route values x 1-3 AddRoutes/AddRoute calls (the same value again, a sub-slice, a copy, rest.WithMiddleware's result) x ordered RouteOption lists x (RestConf, RunOptions, Use) on a real rest.Server, started through StartWithOpts and aborted before listening; Routes(), the Start verdict, the caller's slices and every request of the universe through the server's handler are compared with the reference table computed from the calls. " +
 		"evaluations = requests served (or direct tree searches) compared with the reference matcher. distinct_nontrivial = (table, request) pairs in which at least one registered route " +
 		"is involved in the verdict: a handler must be dispatched, a 405 with an Allow set must be produced, or a 404 must be produced although a route of the " +
 		"request's method matches the first segment (search descends and must fail); 404s on tables where nothing matches even the first segment are not counted.")
+	r.Assume("server-level families (srv-*): the reference table of a program is the concatenation over its AddRoutes/AddRoute calls of (method, path.Join semantics of the WithPrefix options applied in order to the pattern); no other RouteOption, RunOption or middleware changes which route a request is dispatched to. Requests that the reference dispatches into a WithJwt group carry a valid token of that group, all others none (authentication is outside C09). WithCors installs its own NotAllowed handler and is judged like a custom one (no route handler, not the NotFound handler). Programs whose table breaks the statement's precondition (two variable names at one position under one prefix, or one name bound twice in a route) are executed up to Start and then skipped (counted)")
 	r.Assume("route tables use one variable name per position (:v<depth>), as the statement's precondition requires; this is asserted when the pattern family is built")
 	r.Assume("custom NotAllowed handler installed: the statement's '405 + Allow' describes the default answer; with the custom handler only 'that handler is reached exactly once, no route handler, not the NotFound handler' is demanded (the pinned router sets neither status nor Allow then); likewise for the custom NotFound handler")
 	r.Assume("direct search.Tree family: a route with empty segments (//a, /a//b, /a/) may be rejected (then it must leave no trace) or accepted (then it must behave exactly as its clean spelling); the statement only fixes the router level, where such spellings are cleaned before they reach the tree")
 	r.Assume("two registrations under one method whose patterns differ in spelling but clean to the same pattern: the statement is silent; rejection is accepted, acceptance makes the table skipped (counted)")
 	for _, k := range sortedClasses(viol) {
 		v := viol[k]
-		desc := caseString(v.regs, v.nf, v.na, v.tree, v.mi, v.pid) + ": expected " + v.exp + "; observed " + v.got
+		desc := v.describe() + ": expected " + v.exp + "; observed " + v.got
 		r.Violation(v.class, desc, v.replay())
 	}
+	r.SetExtra("phase_wall_s", phaseWall)
+	stopProfile()
 	r.Finish()
 }
+
+var stopProfile = func() {}
